@@ -146,7 +146,7 @@ func c20Source(ns []qnode) *hist.Source {
 
 func init() {
 	Registry["C20"] = func(c *Ctx) {
-		c.R.Rule = "every workspace of a family (4 targets in two packages, every subset of the 6 possible lower->higher dependency edges = all DAG shapes incl. diamonds, plus variants in which one edge goes through an alias; one target is a test target) is materialised on disk and queried with the REAL binary: grog deps / deps -t / rdeps / rdeps -t for every node, --target-type=test|no_test, grog owners for every input file (incl. a file shared by two targets, glob-resolved files, a same-named file in another package and an unowned file), grog list for 8 pattern forms. Printed label sets must equal reference reachability sets, each label printed once, deps* and rdeps* must be mutual inverses. Second part: every single-file edit of the C01 model workspace followed by a build: executed targets ⊆ owners(f) ∪ rdeps*(owners(f)) as printed by the binary itself. Non-trivial = a query whose expected answer is non-empty."
+		c.R.Rule = "every workspace of a family (4 targets in two packages, every subset of the 6 possible lower->higher dependency edges = all DAG shapes incl. diamonds, plus variants in which one edge goes through an alias; one target is a test target) is materialised on disk and queried with the REAL binary: grog deps / deps -t / rdeps / rdeps -t for every node, --target-type=test|no_test, grog owners for every input file (incl. a file shared by two targets, glob-resolved files, a same-named file in another package and an unowned file), grog list for 8 pattern forms. Printed label sets must equal reference reachability sets, each label printed once, deps* and rdeps* must be mutual inverses. Second part: every single-file edit of the C01 model workspace followed by a build started in each directory of the workspace in turn: executed targets ⊆ owners(f) ∪ rdeps*(owners(f)) as printed by the binary itself. Non-trivial = a query whose expected answer is non-empty."
 		c.R.Assume("stdout lines starting with // are the answer of a query command", "with --target-type other than all only target labels are compared (alias nodes are not typed)")
 		grog, err := vc.BuildGrog("grog", nil)
 		if err != nil {
@@ -415,14 +415,28 @@ func c20EditPart(c *Ctx, grog, base string) {
 		fl.Content += "+edit"
 		s2.Files[f] = fl
 		s2.Materialize(b2.WS(), src)
-		r2 := b2.Run(grog, hist.RunOpts{Args: []string{"build", "//..."}})
-		c.R.AddCounts(3, 1, 3, 3)
-		executed := r2.Started()
-		for _, e := range executed {
-			if !allowed[e] {
-				c.R.Violate(vc.Violation{Sig: "C20:edit-executes-target-outside-owners-and-rdeps", Detail: fmt.Sprintf("after editing %s the build executed %s, but owners(%s)=%v and their transitive rdeps are %v", f, e, f, owners, sortedKeys(allowed)), Replay: map[string]any{"file": f, "executed": executed}})
+		// the follow-up build is started in every directory of the workspace in turn, each on its own clone
+		var executed []string
+		for _, cwd := range []string{"", "a", "a/src", "b"} {
+			b3, err := b2.CloneTo(base)
+			if err != nil {
+				c.R.BrokenCheck("clone: %v", err)
+				return
 			}
+			r2 := b3.Run(grog, hist.RunOpts{Args: []string{"build", "//..."}, Cwd: cwd})
+			c.R.AddCounts(1, 1, 1, 1)
+			ex := r2.Started()
+			if cwd == "" {
+				executed = ex
+			}
+			for _, e := range ex {
+				if !allowed[e] {
+					c.R.Violate(vc.Violation{Sig: "C20:edit-executes-target-outside-owners-and-rdeps", Detail: fmt.Sprintf("after editing %s the build (started in %q) executed %s, but owners(%s)=%v and their transitive rdeps are %v", f, cwd, e, f, owners, sortedKeys(allowed)), Replay: map[string]any{"file": f, "executed": ex, "build_started_in": cwd}})
+				}
+			}
+			b3.Remove()
 		}
+		c.R.AddCounts(3, 1, 3, 3)
 		if len(executed) == 0 && len(owners) > 0 {
 			c.R.Violate(vc.Violation{Sig: "C20:edit-of-owned-file-rebuilds-nothing", Detail: fmt.Sprintf("after editing %s (owners %v) the build executed nothing", f, owners), Replay: map[string]any{"file": f}})
 		}
